@@ -48,6 +48,16 @@ def move_nodes(parent: Element, nodes: List[Element], before: Optional[Element] 
         parent.insert(i, node)
 
 
+def swap_nodes(parent: Element, node1: Element, node2: Element):
+    """
+    Exchange the positions of two different children *node1* and *node2* of
+    *parent*.
+    """
+    children = list(parent)
+    index1, index2 = children.index(node1), children.index(node2)
+    parent[index1], parent[index2] = node2, node1
+
+
 def find_child(
         parent: Element,
         child_tag: str,
